@@ -104,7 +104,17 @@ func (m *Exporter) OnBlock(w *engine.World, blk *engine.Block, res *abci.Respons
 		}
 		w.Hit("C12.continuation_blocks")
 		if err != nil {
-			if p, ok := err.(*engine.Panic); ok && p.Module() != "" {
+			if p, ok := err.(*engine.Panic); ok && strings.Contains(p.Value, "is not a module account") {
+				// Application wiring, not the module (DESIGN.md section 14, "Application wiring
+				// is the harness's", (c)): the follower executes the primary's transactions on a
+				// state that differs from the primary's (in-flight service items are dropped on
+				// export), so a module account the primary had put to use before a workload's
+				// transfer reached its address may not be in use here yet; the transfer then
+				// plants an ordinary account at the module's address - which a production
+				// application's blocked-address list rules out - and the auth keeper aborts the
+				// module's next use of it. The follower is retired.
+				w.Hit("C12.continuation_wiring_artifact")
+			} else if ok && p.Module() != "" {
 				w.Violate("C12", "continuation-panic/"+p.Module()+"/"+engine.PanicSite(p.Stack),
 					"a chain started from the as-is export of height %d halts %d blocks later (height %d) in module %s: %s", f.from, blk.Height-f.from, blk.Height, p.Module(), p.Value)
 			}
